@@ -121,7 +121,9 @@ class SMCSampler(MCMCSampler):
         """
         if not self.adaptive:
             beta += beta_step
-            if beta >= 1.0:
+            # Repeated addition of 1 / n_steps can fall just short of 1.0 in
+            # floating point, so snap to 1.0 within half a step.
+            if beta >= 1.0 - 0.5 * beta_step:
                 beta = 1.0
         else:
             beta_prev = beta
